@@ -194,6 +194,7 @@ type Sim struct {
 	starveOn  bool
 
 	nReal    int
+	holdTime bool
 	invariant func() (string, string)
 	stepHooks []stepHook
 	progress int64 // atomic, for the watchdog
@@ -643,7 +644,7 @@ func (s *Sim) computeEnabled(cands []cand) []cand {
 		})
 	}
 	s.nReal = len(cands)
-	if nops > 0 && len(cands) == nops && len(s.timers) > 0 && !s.timers[0].noStall && !s.fair && s.cfg.Strategy.StallPermille > 0 && s.timers[0].when-s.now <= s.stallMax() {
+	if nops > 0 && len(cands) == nops && len(s.timers) > 0 && !s.timers[0].noStall && !s.fair && !s.holdTime && s.cfg.Strategy.StallPermille > 0 && s.timers[0].when-s.now <= s.stallMax() {
 		// stall move ("time passes although work is pending"): always offered as
 		// the LAST candidate, in search and in replay, so candidate numbering is
 		// identical in both modes; the default policy never selects it.
@@ -1168,5 +1169,15 @@ func IsClosed[C ~chan T | ~<-chan T, T any](c C) bool {
 		return !ok
 	default:
 		return false
+	}
+}
+
+// HoldTime switches the stall move off (true) or back on (false): while held,
+// simulated time advances only when nothing is enabled, so a sequence of
+// harness reads after Settle() observes one instant, and a deadline measures
+// what it says.
+func HoldTime(on bool) {
+	if s := cur; s != nil {
+		s.holdTime = on
 	}
 }
